@@ -102,10 +102,10 @@ def run(ctx):
     run.trusted_base = ["CPython ast", "transfer functions of sa/effects.py (list/dict/set/copy semantics)"]
     run.assumptions = ["unresolved and third-party calls neither mutate their arguments nor return aliases of them (optimistic; counted "
                        "in evidence)", "CHA-only call edges contribute no effects"]
-    rule_no_param_mutation(ctx)
-    rule_copies_present(ctx)
-    rule_immutable_api(ctx)
-    rule_deepcopy(ctx)
+    ctx.do(rule_no_param_mutation)
+    ctx.do(rule_copies_present)
+    ctx.do(rule_immutable_api)
+    ctx.do(rule_deepcopy)
 
 
 def rule_no_param_mutation(ctx):
